@@ -484,13 +484,13 @@ class World:
             d[k] = BodyEval(self, body, frozenset(removed))
         return d[k]
 
-    def ret_expr(self, body):
-        """value of _0 at the return points (phi)"""
-        k = id(body)
+    def ret_expr(self, body, removed=frozenset()):
+        """value of _0 at the return points (phi); `removed`: edges infeasible for this use (constant arguments)"""
+        k = id(body) if not removed else (id(body), frozenset(removed))
         if k in self._ret:
             return self._ret[k]
         self._ret[k] = E("rec", (), ("ret", body.path))
-        be = self.be(body)
+        be = self.be_spec(body, removed)
         vals = []
         for r in be.cfg.exits():
             vals.append(be.ev_lp(r, len(body.blocks[r].stmts), 0, ()))
@@ -498,26 +498,28 @@ class World:
         self._ret[k] = v
         return v
 
-    def out_expr(self, body, k):
+    def out_expr(self, body, k, removed=frozenset()):
         """value of the pointee of &mut parameter k (0-based arg index) where the function
         returns successfully (points at which _0 is assigned something other than an Err)"""
-        key = (id(body), k)
+        key = (id(body), k) if not removed else (id(body), k, frozenset(removed))
         if key in self._out:
             return self._out[key]
         self._out[key] = E("rec", (), ("out", body.path, k))
-        be = self.be(body)
+        be = self.be_spec(body, removed)
         vals = []
         sites = []
         for d in be.defs_by_local.get(0, []):
-            if d.path or d.bb < 0:
+            if d.path or d.bb < 0 or d.bb not in be.cfg.live:
                 continue
             v = be.def_value(d)
             alts = v.args if v.op == "phi" else (v,)
             if all((a.op == "adt" and a.info[1] == "Err") or (a.op == "call" and a.info.endswith("FromResidual::from_residual")) for a in alts):
                 continue
             sites.append((d.bb, d.idx))
-        if not sites:
-            sites = [(r, len(body.blocks[r].stmts)) for r in be.cfg.exits()]
+        if not sites or not body.ret_is_result():
+            # (a function that does not return a Result has no failure exits; its _0 may even be the destination of the very
+            # call that performs the mutation, so the value is read at the exits)
+            sites = [(r, len(body.blocks[r].stmts)) for r in be.cfg.exits() if r in be.cfg.live]
         for (bb, idx) in sites:
             vals.append(be.ev_lp(bb, idx, k + 1, ()))
         v = mk_phi(vals) if vals else E("diverges")
@@ -537,12 +539,20 @@ class World:
         b = self.callee_body(e)
         if b is None or not b.is_fn():
             return e
+        args = e.args if e.op == "call" else e.args[1:]
+        # a callee that switches on a parameter the caller passes as a constant (e.g. `&UnbondType::BSei`) is summarised on the
+        # CFG pruned for that constant
+        removed = frozenset()
+        sp = self.__dict__.get("specialiser")
+        if sp is not None:
+            try:
+                removed = frozenset(sp(b, args))
+            except Exception:
+                removed = frozenset()
         if e.op == "call":
-            summ = self.ret_expr(b)
-            args = e.args
+            summ = self.ret_expr(b, removed)
         else:
-            summ = self.out_expr(b, e.info[1])
-            args = e.args[1:]
+            summ = self.out_expr(b, e.info[1], removed)
         return self.subst_params(summ, b, args)
 
     def subst_params(self, summ, body, args, upvars=None):
